@@ -159,6 +159,36 @@ def case_interchange(ctx, s: Subject):
                                        and real["ok"]["lens"] == [None if r is None else [len(c) for _, c in r] for r in rows])
                 ctx.case(f"arrow.type_request.{entry}", {**s.desc(), "source": src_kind, "requested": str(wt)}, real, None, None,
                          hyp=hyp, features=feats + (src_kind, entry), spec_ok=ok, nontrivial=nt)
+        # the request spelled in the OTHER orientation (a list of structs with the widened element types)
+        lwt = transpose_struct_list_type(wt)
+        # (not on storage whose missing rows hide records: the list-of-structs orientation shows those — K1/K6)
+        for entry, fn in () if hyp.get("hidden") else (("from_sequence_ls", lambda: pd.Series(NestedExtensionArray.from_sequence(ser.array, dtype=pd.ArrowDtype(lwt)))),
+                          ("from_sequence_ls_pa", lambda: pd.Series(NestedExtensionArray.from_sequence(ser.array, dtype=lwt))),
+                          ("pack_seq_ls", lambda: pack_seq(ser, dtype=pd.ArrowDtype(lwt))),
+                          ("pack_ls", lambda: pack(ser.astype(pd.ArrowDtype(st)), dtype=lwt))):
+            def run(fn=fn):
+                r = fn()
+                return {"type_honoured": bool(r.array.chunked_array.type.equals(wt)),
+                        "lens": [None if x is None else [len(c) for _, c in x] for x in export.rows_view(r.array)]}
+            real = call_real(run)
+            # (the list-of-structs orientation has no place for a missing row: it comes back as a row of empty lists — K6)
+            def z(l):
+                return [[0] * len(ty) if x is None else x for x in l]
+            ok = "err" in real or (real["ok"]["type_honoured"]
+                                   and z(real["ok"]["lens"]) == z([None if r is None else [len(c) for _, c in r] for r in rows]))
+            ctx.case(f"arrow.type_request.{entry}", {**s.desc(), "requested": str(lwt)}, real, None, None,
+                     hyp=hyp, features=feats + ("list_struct_request", entry), spec_ok=ok, nontrivial=nt)
+    # a nested-to-nested request that changes ONLY the unit of a timestamp field: cast, or refused
+    if any(t == "timestamp[ns]" for _, t in ty):
+        ut = pa.struct([pa.field(n, pa.list_(pa.timestamp("us") if t == "timestamp[ns]" else TYPES[t])) for n, t in ty])
+        for entry, fn in (("astype", lambda: ser.astype(NestedDtype(ut))),
+                          ("series_dtype", lambda: pd.Series(ser.array, index=ser.index, dtype=NestedDtype(ut)))):
+            def run(fn=fn):
+                r = fn()
+                return {"type_honoured": bool(r.array.chunked_array.type.equals(ut)) and str(r.dtype) == str(NestedDtype(ut))}
+            real = call_real(run)
+            ctx.case(f"arrow.timestamp_unit_request.{entry}", {**s.desc(), "requested": str(ut)}, real, None, None, hyp=hyp,
+                     features=feats + ("timestamp_unit", entry), spec_ok=("err" in real or real["ok"]["type_honoured"]), nontrivial=nt)
     lst = transpose_struct_list_type(st)
 
     def cast_ls():
